@@ -43,7 +43,7 @@ def programs(tier, b):
                         st["kw"] = {"bits": {"c": n}}
                     B.add(st)
                 add("b%d/%s/%s/%d" % (b, nm, n, a), {"op": nm, "kinds": "S", "a": a, "n": b if n is None else n, "width": "default" if n is None else "explicit"}, build)
-    for (lo, hi) in ((0, 2), (-1, 3), (1, 2), (-lim // 2, lim // 2)):
+    for (lo, hi) in ((0, 2), (-1, 3), (1, 2), (-lim // 2, lim // 2), (0, 3), (-1, 2), (1, 4), (0, lim - 1)):     # sizes that are and are not powers of two
         for a in win:
             for kk in ("c", "S"):
                 def build(B, a=a, lo=lo, hi=hi, kk=kk):
